@@ -137,7 +137,14 @@ class C04(Check):
             '3e-3 deg) when numpy converts the argument to radians in float32), arguments compared bytewise afterwards.  '
             'Class dense: 2**k, 2**k +- 1 (k = 8..17) list-2 points and 2-5 list-1 points in ONE chunk (quick: 10 sizes incl. '
             '65537 and 131073).  Exact boundary RAs (0.0, nextafter(360,0), 60..300 = 360 - trial offset) are injected into '
-            'list 2 of 20 % of the cases of most classes and into all-around first lists.')
+            'list 2 of 20 % of the cases of most classes and into all-around first lists.  Class same_lists: SEQUENCES of '
+            '5-12 calls in one process on equal values, every call judged by the same oracle: one first list (fresh copies or the '
+            'very same array objects) matched again and again with 3-5 match lengths in growing / shrinking / mixed order with '
+            'repeats, at one explicit chunk size, the default one (lengths <= 0.025 deg all get 0.1 deg; or any lengths), or two '
+            'alternating ones; against the same second list, another one, a twin (same size and bounding box, other interior '
+            'points), list 1 itself; list 1 replaced by its twin, permuted, or the two lists in each other\'s place in some '
+            'calls; spheregroup on list 1 interleaved and judged against union-find components.  The buffer-reuse monitor '
+            '(vlib/brd.py) is attached to spherematch (every 17th call; its own calls are fenced to grids the workload asks for).')
     ASSUMPTIONS = ['separations from a long-double chord formula; pairs within max(1e-9 relative, 1e-11 deg) of the match '
                    'length are undecided (gcirc carries <= 5e-14 deg absolute error from the RA subtraction in radians)',
                    'reported distance must agree with the reference within max(1e-9 relative, 1e-11 deg)',
@@ -156,7 +163,7 @@ class C04(Check):
                          'same_lists_growing_calls_default_chunksize', 'same_lists_growing_calls_after_spheregroup',
                          'same_lists_shrinking_calls', 'same_lists_repeated_length_calls', 'same_lists_other_second_list_calls',
                          'same_lists_calls_after_another_chunksize', 'same_lists_same_object_calls', 'same_lists_twin_calls',
-                         'same_lists_spheregroup_judged', 'brd_differentials', 'brd_differentials_partial_refill', 'brd_own_calls_made')
+                         'same_lists_spheregroup_judged', 'same_lists_swapped_calls', 'brd_differentials', 'brd_differentials_partial_refill', 'brd_own_calls_made')
 
     # ------------------------------------------------------------------ wiring
     def setup(self):
